@@ -80,6 +80,27 @@ Theorem C19_rehash_values_bound :
 Proof. intros K V h. exact (rehash_values_ok K V (fun _ _ => true) (fun _ _ => true) h). Qed.
 Print Assumptions C19_rehash_values_bound.
 
+(* rehash (grow, shrink, or nothing) and the in-place rehash of the repair keep the multiset of stored
+   (key, value) pairs: for every predicate Q the number of stored pairs satisfying Q is unchanged (with
+   Q = "equals (k, v)" this is the multiplicity of (k, v)).  Hypotheses of the first statement = what the
+   callers guarantee (`len` is the number of Valid slots and is below the target capacity).
+   NOT proved here: that every stored pair is still FOUND by probing after a rehash (that needs the
+   probe-chain invariant of the table; results of lookups are covered by the differential runs only). *)
+Theorem C19_rehash_preserves_entries :
+  forall (K V : Type) (h : K -> N) (mincap : nat) (Q : K -> V -> bool) (m m' : omap K V) (c : nat),
+    cnt (is_valid K V) (slots m) = len m -> len m < Nat.max c mincap ->
+    rehash K V h mincap m c = Done m' ->
+    count_entries K V Q (slots m') = count_entries K V Q (slots m).
+Proof. intros K V h mincap. exact (rehash_entries K V (fun _ _ => true) (fun _ _ => true) h mincap). Qed.
+Print Assumptions C19_rehash_preserves_entries.
+
+Theorem C19_rehash_in_place_preserves_entries :
+  forall (K V : Type) (h : K -> N) (Q : K -> V -> bool) (m m' : omap K V),
+    0 < capacity K V m -> rehash_in_place K V h m = Done m' ->
+    count_entries K V Q (slots m') = count_entries K V Q (slots m).
+Proof. intros K V h. exact (rehash_in_place_entries K V (fun _ _ => true) (fun _ _ => true) h). Qed.
+Print Assumptions C19_rehash_in_place_preserves_entries.
+
 (* ---------------------------------------------------------------------------------------------- *)
 (* The pinned revision is refuted                                                                    *)
 (* ---------------------------------------------------------------------------------------------- *)
